@@ -242,13 +242,15 @@ def run(chk, repo, tier):
     run_id_typestate(chk, repo, 'C07.R1', fis, 103)
     rule_R2(chk, repo)
     rule_R3(chk, repo)
+    from .C07ranges import rule_R4
+    rule_R4(chk, repo)
     rule_R5(chk, repo)
     from .C07charges import rule_R6
     rule_R6(chk, repo)
     from . import support
     support.chain_compiler_rules(chk, repo, 'C07.R7')
     chk.undecided += ['operator equality of the optimised and explicit construction', 'unitarity of the gauge matrices',
-                      'index ranges of the wiring (C07.R4) unless the thorough tier is run']
+                      'index ranges of the keys used by the term-insertion functions (only generate_graph / copy_nids are covered by C07.R4)']
     chk.trust('naming convention a_dag ~ creation (C), a_ann ~ annihilation (A) for the get() rule')
     return ('Static rules over hamiltonian.py (molecular constructions): path-sensitive id typestate (found F2), '
             'family-table agreement between creation / export / registration / lookup, exactly-once edge insertion '
